@@ -69,3 +69,45 @@ def cliDialects (delimArg : List Char) (policyArg : Option CliPolicy) (fmt : Out
   | some (od, op) => { inDelim := d, inPolicy := p, outDelim := od, outPolicy := op }
 
 end Rbql
+
+namespace Rbql
+
+/-! ### the front door of `python -m rbql` (csv_main): which invocations are refused before any query runs -/
+
+structure CliArgs where
+  version : Bool := false        -- `--version`
+  color : Bool := false          -- `--color`
+  hasOutput : Bool := false      -- `--output FILE` given
+  policy : Option CliPolicy := none
+  delim : Option (List Char) := none
+  hasQuery : Bool := false       -- `--query` given (otherwise: interactive mode)
+  deriving DecidableEq, Repr
+
+inductive CliRefusal
+  | colorWithOutput              -- '"--output" is not compatible with "--color" option'
+  | policyWithoutDelim           -- 'Using "--policy" without "--delim" is not allowed'
+  | colorInteractive             -- '"--color" option is not compatible with interactive mode…'
+  | delimRequired                -- 'Separator must be provided with "--delim" option in non-interactive mode'
+  deriving DecidableEq, Repr
+
+inductive CliDoor
+  | printVersion                                   -- prints the version, exit 0
+  | refuse (why : CliRefusal)                      -- 'Error [generic]: …' on stderr, exit 1, nothing on stdout
+  | interactive                                    -- preview + prompt (outside C13)
+  | run (delim : List Char) (policy : CliPolicy)   -- run_with_python_csv with this input dialect
+  deriving DecidableEq, Repr
+
+/-- `csv_main` after argparse (POSIX: the `os.name == 'nt'` refusal of `--color` is not modelled) -/
+def cliDoor (a : CliArgs) : CliDoor :=
+  if a.version then .printVersion
+  else if a.hasOutput && a.color then .refuse .colorWithOutput
+  else
+    let delim := if a.policy = some .monocolumn then some [] else a.delim
+    if delim.isNone && a.policy.isSome then .refuse .policyWithoutDelim
+    else if !a.hasQuery then (if a.color then .refuse .colorInteractive else .interactive)
+    else
+      match delim with
+      | none => .refuse .delimRequired
+      | some d => .run (cliNormalizeDelim d) (a.policy.getD (cliDefaultPolicy (cliNormalizeDelim d)))
+
+end Rbql
